@@ -53,7 +53,7 @@ def final_result(it):
     return None
 
 
-def differences(i1, i2, idxname="oi"):
+def differences(i1, i2, idxname="oi", obs_filter=None):
     """List of (description, z3 Bool 'differs', extra constraints)."""
     diffs = []
     keys = []
@@ -63,6 +63,8 @@ def differences(i1, i2, idxname="oi"):
     for k in keys:
         meta = i1.meta.get(k) or i2.meta.get(k)
         if meta[0] == "struct":
+            continue
+        if obs_filter is not None and not obs_filter(k, meta):
             continue
         a = i1.store.get(k, _const_for(k, meta))
         b = i2.store.get(k, _const_for(k, meta))
@@ -75,6 +77,8 @@ def differences(i1, i2, idxname="oi"):
             idx = [z3.Int(f"{idxname}_{k}_{d}") for d in range(rank)]
             cons = _bounds_constraints(i1, k, idx)
             diffs.append((k, select(a, idx) != select(b, idx), cons))
+    if obs_filter is not None:
+        return diffs
     r1, r2 = final_result(i1), final_result(i2)
     if r1 is not None and r2 is not None and not r1.eq(r2):
         diffs.append(("result", r1 != r2, []))
@@ -114,8 +118,8 @@ def compare(src1, src2, routine, K=3, E=3, timeout_ms=20000, setup=None, check_o
     return compare_interps(i1, i2, timeout_ms, check_oob)
 
 
-def compare_interps(i1, i2, timeout_ms=20000, check_oob=False, extra_assumptions=()):
-    diffs = differences(i1, i2)
+def compare_interps(i1, i2, timeout_ms=20000, check_oob=False, extra_assumptions=(), obs_filter=None):
+    diffs = differences(i1, i2, obs_filter=obs_filter)
     nontrivial = is_nontrivial(i1)
     if not diffs:
         return Result("unsat", nontrivial=nontrivial, i1=i1, i2=i2, reach="skipped")
